@@ -19,4 +19,5 @@ func extraGens() {
 	runGen("c05", genC05)
 	runGen("c07", genC07)
 	runGen("c04", genC04)
+	runGen("c14", genC14)
 }
